@@ -238,6 +238,10 @@ def refuted_schedules():
 
 def generate(rng, tier, n):
     k = 0
+    if tier == 'thorough' and n >= 1000:
+        for i in range(8):
+            yield {'soak': rng.randrange(10 ** 6), 'threads': rng.choice([3, 4, 6, 8]), 'regs': 120}
+            k += 1
     for c in refuted_schedules():
         yield c
         k += 1
@@ -298,6 +302,9 @@ def _ops_ok(ops, depth):
 
 def valid(case):
     try:
+        if isinstance(case, dict) and 'soak' in case:
+            return set(case) == {'soak', 'threads', 'regs'} and all(isinstance(case[x], int) for x in case) \
+                and 1 <= case['threads'] <= 32 and 1 <= case['regs'] <= 1000
         if not isinstance(case, dict) or set(case) != {'init', 'ops'}:
             return False
         if not _ops_ok(case['init'], 0) or not _ops_ok(case['ops'], 0):
@@ -308,9 +315,16 @@ def valid(case):
 
 
 # ------------------------------------------------------------ wire
-def _wire_update(r):
+def _wire_updates(r):
+    """what one registration does to the adapter registry (map slot -> view).  Which slots an override
+    touches is not C15's business: it is probed once on the real adapter registry in setup() (oracle)."""
+    if not _impl:
+        setup('quick')
     s = slot_of(r)
-    return [list(s), [r['tag']]]
+    ups = []
+    if _impl['override_unregisters']:
+        ups = [[[s[0], s[1], vt, s[3]], []] for vt in (0, 1)]
+    return ups + [[list(s), [r['tag']]]]
 
 
 def _wire_ops(ops, counter):
@@ -322,7 +336,7 @@ def _wire_ops(ops, counter):
             inj = [[p, _wire_ops(sub, counter)] for p, sub in o['inj']]
             out.append([0, oid, [o['req'], CTX[o['ctx']], o['name']], inj])
         else:
-            out.append([1, oid, [_wire_update(o)], _wire_ops(o['inj'], counter)])
+            out.append([1, oid, _wire_updates(o), _wire_ops(o['inj'], counter)])
     return out
 
 
@@ -332,7 +346,9 @@ _sro_tbl = []
 def to_wire(case):
     if not _sro_tbl:
         setup('quick')
-    return [_sro_tbl, [_wire_update(r) for r in case['init']], _wire_ops(case['ops'], [0])]
+    if 'soak' in case:
+        return [_sro_tbl, [], []]
+    return [_sro_tbl, [u for r in case['init'] for u in _wire_updates(r)], _wire_ops(case['ops'], [0])]
 
 
 def _srt(cache):
@@ -340,6 +356,9 @@ def _srt(cache):
 
 
 def from_wire(case, raw):
+    if 'soak' in case:
+        # free-running threads are a TEST (no model of the schedule): the expected observation is "no bad answer"
+        return {'model': ['soak', 0, 1], 'spec': ['soak']}
     if raw == [['bad']] or not isinstance(raw, list) or len(raw) != 7:
         return {'model': ['MODEL-BAD', raw], 'spec': None}
     threads, spawn, cache, expects, quiet, table, tlen = raw
@@ -411,6 +430,15 @@ def setup(tier):
     for iface, i in sorted(ids.items(), key=lambda kv: kv[1]):
         tbl.append([i, [ids[x] for x in iface.__sro__]])
     _sro_tbl[:] = tbl
+    # oracle: does registering an override under the other view interface remove the view it replaces?
+    w.add_view(Rg(1, 'A', 0, 0, 1))
+    w.add_view(Rg(1, 'A', 0, 1, 2))
+    from pyramid.interfaces import IView, ISecuredView, IViewClassifier
+    src = (IViewClassifier, IRequest, w.ctx['A'])
+    got = [w.real.registered(src, t, name='') is not None for t in (IView, ISecuredView)]
+    if got not in ([True, True], [False, True]):
+        raise RuntimeError('unexpected adapter registry contents after an override: %r' % got)
+    _impl['override_unregisters'] = (got == [False, True])
     for k, v in SRO_LEN.items():
         i = k if isinstance(k, int) else CTX[k]
         got = [len(s) for j, s in tbl if j == i][0]
@@ -587,9 +615,90 @@ class _World:
         return sorted(out)
 
 
+def run_soak(case):
+    """free-running threads (a test, not part of the proof): N reader threads look keys up while one writer replaces
+    views; a lookup that ran entirely between two registrations must return what a freshly built application holding
+    the same registrations returns; afterwards miss-only traffic must leave the cache size unchanged."""
+    import random
+    import sys
+    import threading
+    rng = random.Random(case['soak'])
+    w = _World()
+    find = _impl['pview']._find_views
+    regs = [Rg(1, 'A', 0, 0, 1), Rg(1, None, 0, 0, 2)]
+    for r in regs:
+        w.add_view(r)
+    plan = []
+    tag = 2
+    for _ in range(case['regs']):
+        tag += 1
+        plan.append(Rg(1 if rng.random() < 0.8 else 2, rng.choice([None, 'A', 'B', 'C']), 0, rng.choice([0, 0, 1]), tag))
+    keys = [(rq, c) for rq in (1, 3) for c in 'ABC']
+
+    def expected(rs):
+        f = _World()
+        for r in rs:
+            f.add_view(r)
+        return {k: f.tags(find(f.reg, f.req[k[0]], f.ctx[k[1]], '')) for k in keys}
+    exp = [expected(regs)]
+    acc = list(regs)
+    for r in plan:
+        acc.append(r)
+        exp.append(expected(acc))
+    state = {'e': 0, 'p': False, 'stop': False}
+    bad = []
+    checked = [0]
+
+    def reader(seed):
+        r = random.Random(seed)
+        while not state['stop']:
+            k = r.choice(keys)
+            p1 = state['p']
+            e1 = state['e']
+            vs = find(w.reg, w.req[k[0]], w.ctx[k[1]], '')
+            e2 = state['e']
+            p2 = state['p']
+            if e1 == e2 and not p1 and not p2:
+                checked[0] += 1
+                got = w.tags(vs)
+                if got != exp[e1][k]:
+                    bad.append([list(k), e1, got, exp[e1][k]])
+
+    old = sys.getswitchinterval()
+    sys.setswitchinterval(1e-5)
+    try:
+        ths = [threading.Thread(target=reader, args=(case['soak'] * 100 + i,)) for i in range(case['threads'])]
+        for t in ths:
+            t.start()
+        import time
+        for r in plan:
+            time.sleep(0.0003)
+            state['p'] = True
+            w.add_view(r)
+            state['e'] += 1
+            state['p'] = False
+        time.sleep(0.01)
+        state['stop'] = True
+        for t in ths:
+            t.join()
+    finally:
+        sys.setswitchinterval(old)
+    # miss-only traffic: name 'x' was never registered
+    before = len(w.reg._view_lookup_cache)
+    for _ in range(50):
+        for k in keys:
+            find(w.reg, w.req[k[0]], w.ctx[k[1]], 'x')
+    cache_ok = 1 if len(w.reg._view_lookup_cache) == before and all(v for v in w.reg._view_lookup_cache.values()) else 0
+    if checked[0] == 0:
+        return ['soak', -1, cache_ok]
+    return ['soak', len(bad), cache_ok]
+
+
 def run_impl(case):
     if not _impl:
         setup('quick')
+    if 'soak' in case:
+        return run_soak(case)
     w = _World()
     for r in case['init']:
         w.add_view(r)
@@ -606,6 +715,8 @@ def spec_holds(case, obs, spec):
     current cache is non-empty and equals lookup_all of the final registrations."""
     if spec is None:
         return None
+    if 'soak' in case:
+        return obs == ['soak', 0, 1]
     expects, quiet, table, mspawn, _tlen = spec
     if not isinstance(obs, list) or len(obs) != 3 or (obs and obs[0] == 'HARNESS-EXC'):
         return None
@@ -643,6 +754,8 @@ def _depth(ops):
 
 def nontrivial(case, obs):
     try:
+        if 'soak' in case:
+            return True
         threads = obs[0]
         return any(t[0] == 0 and t[1] and t[1][0] for t in threads) and _depth(case['ops']) >= 1 and len(threads) >= 2
     except Exception:
@@ -652,6 +765,8 @@ def nontrivial(case, obs):
 def kinds(case, obs):
     k = []
     try:
+        if 'soak' in case:
+            return ['soak-free-running-threads-%d' % case['threads']]
         threads, spawn, cache = obs
         lk = [t for t in threads if t[0] == 0]
         k.append('threads-%s' % (len(threads) if len(threads) < 8 else '8+'))
